@@ -230,6 +230,81 @@ def reach_after(body, b):
     return out
 
 
+def store_keeps_configured_size(facts, RL, side):
+    """True when (a) every field of the store that its un-encode method reads is assigned in the store's resize from an
+    expression over resize's own parameters (and such fields) only, and (b) the work object's explicit reset calls that resize
+    with arguments built from its own shard_bytes / work_count parameters only.  Otherwise a reason (str)."""
+    SELF = ('deref', ('param', 'self'))
+    und = facts.fns.get(RL.fn.get('store.undo') or '')
+    rz = facts.fns.get(RL.fn.get('store.resize') or '')
+    rs = facts.fns.get(RL.fn.get(side + '.reset') or '')
+    if und is None or rz is None or rs is None:
+        return 'its resize / un-encode / the reset were not identified'
+    private = lambda g, t: not g.reachable and not g.impl_trait and not g.in_trait and g.kind != 'Closure'
+    ub = core.inlined_fn(facts, und.path, private, tag='ksz').body
+    reads = set()
+
+    def fields_in(c):
+        if isinstance(c, tuple):
+            if c and c[0] == 'field' and c[1] == SELF and isinstance(c[2], str):
+                reads.add(c[2])
+            for x in c:
+                fields_in(x)
+    for blk in ub.blocks:
+        if blk.get('cleanup'):
+            continue
+        for st in blk['stmts']:
+            if st['k'] == 'assign':
+                fields_in(core.strip_var_ids(ub.canon_rv(st['rv'])))
+        if blk['term']['k'] == 'call':
+            for a in blk['term']['args']:
+                fields_in(core.strip_var_ids(ub.canon_op(a)))
+    adt = facts.adts.get(RL.store_adt or '', {})
+    ftys = {fl['name']: fl['ty'] for v in adt.get('variants', []) for fl in v['fields']}
+    scalar = {f for f in reads if ftys.get(f) in ('usize', 'u32', 'u64')}
+    rb = rz.body
+    assigned = {}
+    for blk in rb.blocks:
+        for st in blk['stmts']:
+            if st['k'] == 'assign' and st['lhs']['l'] == 1 and len(st['lhs']['p']) == 2 and st['lhs']['p'][0] == '*':
+                assigned.setdefault(st['lhs']['p'][1].get('f'), []).append(core.strip_var_ids(rb.canon_rv(st['rv'])))
+
+    def from_params(c, depth=0):
+        if not isinstance(c, tuple):
+            return True
+        if c and c[0] == 'param':
+            return c[1] != 'self'
+        if c and c[0] == 'field':
+            return c[1] == SELF and c[2] in assigned and depth < 3 and all(from_params(v, depth + 1) for v in assigned[c[2]])
+        if c and c[0] in ('var',):
+            return False
+        return all(from_params(x, depth) for x in c[1:])
+    for f in sorted(scalar):
+        if f not in assigned:
+            return 'field `%s`, which the re-packing reads, is never assigned in the resize' % f
+        if not all(from_params(v) for v in assigned[f]):
+            return 'field `%s` is assigned %s in the resize, not a function of its parameters' % (f, [core.show(v) for v in assigned[f]][:2])
+    rsb = core.inlined_fn(facts, rs.path, lambda g, t, rzp=rz.path: private(g, t) and g.path != rzp, tag='ksz').body
+    calls = [(b, t) for b, t in rsb.calls() if t['callee'].get('path') == rz.path]
+    if len(calls) != 1:
+        return 'the reset calls the resize %d times' % len(calls)
+    names = set()
+    for a in calls[0][1]['args'][1:]:
+        c = RL.norm(core.strip_var_ids(rsb.canon_op(a)), rs.path)
+        resetrules.collect_params(c, names)
+
+        def selfreads(x):
+            if isinstance(x, tuple):
+                if x and x[0] == 'field' and x[1] == SELF:
+                    names.add('self.' + str(x[2]))
+                for y in x:
+                    selfreads(y)
+        selfreads(c)
+    if not names <= {'shard_bytes', 'work_count', 'self.shard_bytes'}:
+        return 'the reset sizes the store from %s' % sorted(names)
+    return True
+
+
 def range_agreement(ctx, facts, cfg):
     R = 'C04.c-range-agreement'
     SELF = ('deref', ('param', 'self'))
@@ -246,7 +321,33 @@ def range_agreement(ctx, facts, cfg):
             ctx.violation(R, 'no-delegate', '%s does not call Shards::undo_last_chunk_encoding exactly once' % p, site=fn.span, fn=p, cfg=cfg)
             continue
         t = calls[0][1]
+        own_size = None
+        if len(t['args']) == 2:
+            # the store keeps the byte length itself: fine when everything its re-packing reads is a function of what the latest
+            # resize was given, and the reset gives it the configured shard_bytes (C04.d decides "rewritten on every path")
+            own_size = store_keeps_configured_size(facts, RL, side)
+        if len(t['args']) == 2 and own_size is True:
+            sb = ('field', SELF, 'shard_bytes')
+            rg = RL.norm(body.canon_op(t['args'][1]), p)
+            problems = []
+            if rg[0] != 'adt' or not rg[1].endswith('ops::Range'):
+                problems.append('range argument is %s' % core.show(rg)[:80])
+            else:
+                d = dict(rg[3])
+                b0 = ('const', 0) if base is None else ('field', SELF, base)
+                if c05.lin(d.get('start')) != c05.lin(b0):
+                    problems.append('range starts at %s, accessor exposes from %s' % (core.show(d.get('start')), core.show(b0)))
+                if c05.lin(d.get('end')) != c05.lin(('bin', 'Add', b0, ('field', SELF, count))):
+                    problems.append('range ends at %s, accessor exposes up to %s + self.%s' % (core.show(d.get('end')), core.show(b0), count))
+            if problems:
+                for pb in problems:
+                    ctx.violation(R, re.sub(r'[^A-Za-z_]+', '-', pb)[:60], '%s: %s' % (p, pb), site=t['line'], fn=p, cfg=cfg)
+            else:
+                ctx.ok(R, '%s@%s' % (p, cfg), {'range': core.show(rg)[:100], 'size': 'kept by the store, set from shard_bytes at every resize'})
+            continue
         if len(t['args']) != 3:
+            if isinstance(own_size, str):
+                ctx.note('%s: the store keeps its own size but %s' % (p, own_size))
             ctx.violation(R, 'delegate-signature', '%s no longer passes (shard_bytes, range) to Shards::undo_last_chunk_encoding: the size used for re-packing cannot be tied to the configured shard_bytes (a cached size goes stale on reset)' % p,
                           site=t['line'], fn=p, cfg=cfg)
             continue
@@ -280,7 +381,16 @@ def split_agreement(ctx, facts, cfg):
     und = RL.get(ctx, 'store.undo', R, cfg)
     if ins is None or und is None:
         return
-    ib, ub = ins.body, und.body
+    # arithmetic shared through a private helper (`chunks_and_tail(len) -> (len / 64, len % 64)`) is read in place
+    pure_helper = lambda g, t: (not g.reachable and not g.impl_trait and not g.in_trait and g.kind != 'Closure'
+                                and not any('&mut' in x for x in g.inputs) and g.output not in ('()', None))
+    ib = core.inlined_fn(facts, ins.path, pure_helper, tag='c04d').body
+    ub = core.inlined_fn(facts, und.path, pure_helper, tag='c04d').body
+    own_size_fields = set()
+    if len(und.body.mir['locals']) and und.body.arg_count == 2:
+        # the store keeps the byte length itself (see C04.c): its size fields stand for the length
+        adt_ = facts.adts.get(RL.store_adt or '', {})
+        own_size_fields = {fl['name'] for v in adt_.get('variants', []) for fl in v['fields'] if fl['ty'] == 'usize' and 'count' not in fl['name'] and 'len_64' not in fl['name']}
     problems = []
     # insert: tail_len = len % 64 ; src_tail.split_at(tail_len / 2) ; dst[whole].split_at_mut(K)
     K = None
@@ -321,6 +431,8 @@ def split_agreement(ctx, facts, cfg):
                     if c and c[0] == 'call' and str(c[1]).endswith('::len') and len(c[2]) == 1:
                         return 'LEN'
                     if c == ('param', 'shard_bytes'):
+                        return 'LEN'
+                    if c and c[0] == 'field' and c[1] == ('deref', ('param', 'self')) and c[2] in own_size_fields and 'bytes' in str(c[2]):
                         return 'LEN'
                     if c and c[0] == 'checked':
                         return norm(c[1])
@@ -374,6 +486,20 @@ def store_resize_complete(ctx, facts, cfg, R='C04.d-split-agreement'):
                 if len(rs) == 1:
                     t = rs[0][6]
                     need = core.strip_var_ids(body.canon_op(t['args'][1]))
+                    # `self.a * self.b` read after `self.a = a; self.b = b`: the fields stand for what they were just assigned
+                    fval = {}
+                    for w_ in ws:
+                        if w_[1] == 'assign':
+                            fval.setdefault(w_[0], set()).add(repr(core.strip_var_ids(w_[2])))
+                    fone = {f_: core.strip_var_ids([w_[2] for w_ in ws if w_[0] == f_ and w_[1] == 'assign'][0]) for f_, vs_ in fval.items() if len(vs_) == 1}
+
+                    def resolve(e_):
+                        if isinstance(e_, tuple) and e_ and e_[0] == 'field' and e_[1] == ('deref', ('param', 'self')) and e_[2] in fone:
+                            return fone[e_[2]]
+                        if isinstance(e_, tuple):
+                            return tuple(resolve(y_) for y_ in e_)
+                        return e_
+                    need = resolve(need)
                     eq_edges, known = set(), set()
                     SELF = ('deref', ('param', 'self'))
                     for sb in range(body.n):
